@@ -157,3 +157,16 @@ contract('pyx12.error_997.error_997_visitor.visit_ele',
          serves=['C06'],
          note='AK4 lines: every line written is counted (seg_count - lines written is invariant over the loop), at most one line per recorded '
               'error, nothing else of the visitor changes, no exception for any error list')
+
+
+contract('pyx12.error_997.error_997_visitor.__init__',
+         self_type=Obj('pyx12.error_997.error_997_visitor'),
+         params={'fd': Obj('ext.TextOutRaw', log=ListOf(Str)), 'term': Tup(Str, Str, Str, Str)},
+         returns=NoneT,
+         ensures=["self.seg_term == '~' and self.ele_term == '*' and self.subele_term == ':'",
+                  'self.seg_count == 0 and self.st_control_num == 0 and self.st_loop_count == 0',
+                  'self.fd.log == old(fd.log)'],
+         raises={},
+         serves=['C06', 'C12'],
+         note='the 997 is always written with the constants ~ * : whatever `term` (the delimiters of the input) holds: the output delimiters '
+              'are not a function of the input (the reason given for the C12 delim-read allowance of this class), and the counters start at 0')
